@@ -37,19 +37,23 @@ def correspondence(ctx, corr):
     rng = ctx.sub_rng('part_check')
     lines = []
     cases = []
+    NAMES = ['ELLIPSIS', 'NORMALIZE_WHITESPACE', 'IGNORE_WHITESPACE', 'NORMALIZE_REPR', 'DONT_ACCEPT_BLANKLINE', 'IGNORE_EXCEPTION_DETAIL']
+    FLAGSETS = ['110100', '110100', '000010', '100000', '010100', '000100']
     for _ in range(1500 if ctx.quick else 20000):
         outs = [rng.choice(['a\n', 'b\n', '', 'c\nd\n', '1\n']) for _ in range(rng.randint(0, 3))]
         out = rng.choice(['a\n', '', 'b\n', '1\n', 'c\nd\n'])
-        ev = rng.choice([None, 1, 'a', 'BAD'])
+        ev = rng.choice([None, 1, 'a', 'BAD', 'p\nq', "it's", 1.5])
         joined = ''.join(outs) + out
-        want = rng.choice([joined.strip() or 'a', out.strip() or 'zz', 'a', 'b\na', "'a'", '1', 'c d', 'zz', 'b'])
-        cases.append((outs, out, ev, want))
+        want = rng.choice([joined.strip() or 'a', out.strip() or 'zz', 'a', 'b\na', "'a'", '1', 'c d', 'zz', 'b',
+                           repr(ev) if ev not in (None, 'BAD') else 'a', str(ev) if ev not in (None, 'BAD') else '1'])
+        fl = rng.choice(FLAGSETS)
+        cases.append((outs, out, ev, want, fl))
         evs = 'N' if ev is None else ('R' if ev == 'BAD' else 'V' + enc(repr(ev)))
-        lines.append('part_check\t110100\t%s\t%s\t%s\t%s' % (enc(want), enc(out), evs, enc_list(outs)))
+        lines.append('part_check\t%s\t%s\t%s\t%s\t%s' % (fl, enc(want), enc(out), evs, enc_list(outs)))
     model = driver.run_lines(lines)
     from ..gen.doctests import BadRepr
-    rs = directive.RuntimeState()
-    for (outs, out, ev, want), m in zip(cases, model):
+    for (outs, out, ev, want, fl), m in zip(cases, model):
+        rs = directive.RuntimeState(dict((n, c == '1') for n, c in zip(NAMES, fl)))
         part = doctest_part.DoctestPart(['x'], want_lines=want.split('\n'))
         got_eval = constants.NOT_EVALED if ev is None else (BadRepr() if ev == 'BAD' else ev)
         try:
@@ -63,10 +67,10 @@ def correspondence(ctx, corr):
             r = 'raise:' + type(e).__name__
         corr.count('part_check')
         if outs:
-            corr.nontriv(('pc', tuple(outs), out, repr(ev), want))
+            corr.nontriv(('pc', tuple(outs), out, repr(ev), want, fl))
         corr.tag('part_check:' + r)
         if r != m:
-            corr.disagree('part_check', {'unmatched': outs, 'stdout': out, 'eval': repr(ev), 'want': want}, m, r)
+            corr.disagree('part_check', {'unmatched': outs, 'stdout': out, 'eval': repr(ev), 'want': want, 'flags': fl}, m, r)
 
 
 def search(ctx, corr, broken):
